@@ -1,3 +1,5 @@
 import BufrSpec.Expand
 import BufrSpec.Ops
 import BufrSpec.Ieee
+import BufrSpec.RefDecode
+import BufrSpec.RefEncode
